@@ -45,7 +45,9 @@ reg(part('all_rabinkarp', 'src/arch/all/rabinkarp.rs', 'arch::all::rabinkarp',
 # X8 (DESIGN 2.1, ref pattern in a match arm): `Some(&first_byte) => first_byte` -> `Some(first_byte) => *first_byte`
 reg(part('all_twoway', 'src/arch/all/twoway.rs', 'arch::all::twoway',
          rewrites=[[['Some', '(', '&', 'first_byte', ')', '=>', 'first_byte'], 'Some(first_byte) => *first_byte', 'X8']]))
-reg(part('all_packedpair', 'src/arch/all/packedpair/mod.rs', 'arch::all::packedpair'))
+# X8 (ref pattern in closure parameter, DESIGN 2.1): `|&b| b != self.byte2` -> `|b| *b != self.byte2`
+X8_PP = [[['|', '&', 'b', '|', 'b', '!=', 'self', '.', 'byte2'], '|b| *b != self.byte2', 'X8']]
+reg(part('all_packedpair', 'src/arch/all/packedpair/mod.rs', 'arch::all::packedpair', rewrites=X8_PP))
 reg(part('all_default_rank', 'src/arch/all/packedpair/default_rank.rs', 'arch::all::packedpair::default_rank'))
 reg(part('generic_packedpair', 'src/arch/generic/packedpair.rs', 'arch::generic::packedpair'))
 reg(part('sse2_packedpair', 'src/arch/x86_64/sse2/packedpair.rs', 'arch::x86_64::sse2::packedpair'))
@@ -54,16 +56,19 @@ reg(part('avx2_packedpair', 'src/arch/x86_64/avx2/packedpair.rs', 'arch::x86_64:
 S_OPTS = dict(debug_asserts='drop', asserts='panic')
 reg(part('s_vector', 'src/vector.rs', 'vector', drop_items=['mod aarch64neon', 'mod wasm_simd128'], **S_OPTS))
 reg(part('s_all_mod', 'src/arch/all/mod.rs', 'arch::all', **S_OPTS))
-reg(part('s_all_packedpair', 'src/arch/all/packedpair/mod.rs', 'arch::all::packedpair', **S_OPTS))
+reg(part('s_all_packedpair', 'src/arch/all/packedpair/mod.rs', 'arch::all::packedpair', rewrites=X8_PP, **S_OPTS))
 reg(part('s_generic_packedpair', 'src/arch/generic/packedpair.rs', 'arch::generic::packedpair', **S_OPTS))
 reg(part('s_sse2_packedpair', 'src/arch/x86_64/sse2/packedpair.rs', 'arch::x86_64::sse2::packedpair', **S_OPTS))
 reg(part('s_avx2_packedpair', 'src/arch/x86_64/avx2/packedpair.rs', 'arch::x86_64::avx2::packedpair', **S_OPTS))
 reg(part('memchr_top', 'src/memchr.rs', 'memchr', cfg='x86_64'))
 reg(part('x86_64_memchr', 'src/arch/x86_64/memchr.rs', 'arch::x86_64::memchr'))
-reg(part('memmem_mod', 'src/memmem/mod.rs', 'memmem'))
+reg(part('memmem_mod', 'src/memmem/mod.rs', 'memmem', keep_derives=['Clone', 'Copy', 'Default']))
 reg(part('memmem_searcher', 'src/memmem/searcher.rs', 'memmem::searcher',
          only_items=['struct SearcherRev', 'enum SearcherRevKind', 'impl SearcherRev', 'enum PrefilterConfig',
-                     'impl Default for PrefilterConfig', 'impl PrefilterConfig']))
+                     'impl Default for PrefilterConfig', 'impl PrefilterConfig'],
+         # derive(Clone) on the non-Copy SearcherRev/SearcherRevKind gets no Verus spec; the template declares the
+         # Clone impls with their (assumed, structural) contract instead
+         keep_derives=['Copy']))
 reg(part('cow', 'src/cow.rs', 'cow'))
 # the non-union, non-fn-pointer slice of the meta searcher that Two-Way depends on
 reg(part('memmem_pre', 'src/memmem/searcher.rs', 'memmem::searcher',
@@ -85,7 +90,7 @@ reg(part('memmem_reexport', 'src/memmem/mod.rs', 'memmem', only_items=['use crat
 P0 = ['prelude/vbase.vrs']
 BASE = ['ext', 'vector', 'generic_memchr']
 BUILDS = {
-    'main': dict(parts=BASE, prelude=P0),
+    'main': dict(parts=BASE + ['all_mod', 'all_rabinkarp'], prelude=P0 + ['prelude/x_eqrk.vrs']),
     # development builds (one per porting task; each may add its own prelude/x_<name>.vrs)
     'dev_generic': dict(parts=BASE, prelude=P0),
     'dev_eq': dict(parts=['ext', 'vector', 'all_mod'], prelude=P0),
